@@ -551,6 +551,27 @@ def run_mcase(case):
                     r = set_(e, v, held[-1], cascade=cascade)
                     return ON("value", [lval(cx, r)])
                 ob = attempt("setfrom", th)
+                ob[2].append(ON("fresh", [OZ(1)]))   # the model reports freshb && currentb (hypotheses of set_match_cset_from)
+        elif k == 'getstorefrom':
+            _, p, d = op
+            if d[0] != 'notset':
+                vcounter = label_value(cx, d[-1], vcounter)
+            if not was_fresh or not held:
+                ob = ON("skip")
+            else:
+                def th():
+                    e = build_path(cx, p)
+                    if d[0] == 'notset':
+                        r = get(e, held[-1], store_default=True)
+                    elif d[0] == 'const':
+                        r = get(e, held[-1], default=d[1], store_default=True)
+                    else:
+                        def dcall():
+                            cx.log.append(ON("callf", [OZ(d[1]), ON("null")]))
+                            return d[2]
+                        r = get(e, held[-1], default=dcall, store_default=True)
+                    return ON("got", [lval(cx, r)])
+                ob = attempt("getstorefrom", th)
         elif k == 'popfrom':
             _, p, d = op
             if d is not None:
